@@ -6,15 +6,22 @@ From Verif.Gen Require Import Errors.
 Import ListNotations.
 Local Open Scope N_scope.
 
-Definition err : Type := str * list str.      (* error code, names of the supplied datavars *)
+Definition err : Type := str * list (str * bool).      (* error code, supplied datavars (name, certainly-an-int?) *)
 
-(* E[errorcode] % datavars succeeds iff the code is a key of E and every %(name) of the template is supplied;
-   otherwise Python raises KeyError *)
-Definition template_vars (code : str) : option (list str) :=
+(* E[errorcode] % datavars succeeds iff the code is a key of E, every %(name) of the template is supplied
+   (else KeyError) and its conversion accepts the value: %s takes anything, %d %x %X %o ... need a number
+   (else TypeError) *)
+Definition template_vars (code : str) : option (list (str * N)) :=
   option_map snd (find (fun e => str_eqb (fst e) code) E_table).
+Definition conv_ok (conv : N) (is_int : bool) : bool := (conv =? 115) || (conv =? 114) || is_int.
+Definition var_ok (supplied : list (str * bool)) (v : str * N) : bool :=
+  match find (fun k => str_eqb (fst k) (fst v)) supplied with
+  | Some k => conv_ok (snd v) (snd k)
+  | None => false
+  end.
 Definition format_ok (e : err) : bool :=
   match template_vars (fst e) with
-  | Some vars => forallb (fun v => mem_str v (snd e)) vars
+  | Some vars => forallb (var_ok (snd e)) vars
   | None => false
   end.
 
@@ -34,8 +41,9 @@ Fixpoint run_calls (strict : bool) (calls : list err) (errors : list err) : list
               end
   end.
 
-Definition dec_err (x : sx) : err := (as_str (nth_sx 0 x), map as_str (as_list (nth_sx 1 x))).
-Definition enc_err (e : err) : sx := L [of_str (fst e); of_list of_str (snd e)].
+Definition dec_err (x : sx) : err :=
+  (as_str (nth_sx 0 x), map (fun k => (as_str (nth_sx 0 k), as_bool (nth_sx 1 k))) (as_list (nth_sx 1 x))).
+Definition enc_err (e : err) : sx := L [of_str (fst e); of_list (fun k => L [of_str (fst k); of_bool (snd k)]) (snd e)].
 
 Definition run_c16 (x : sx) : sx :=
   let '(errs, ex) := run_calls (as_bool (nth_sx 0 x)) (map dec_err (as_list (nth_sx 1 x))) [] in
